@@ -221,6 +221,79 @@ fn facts_of(doc: &ServiceDocument, chars: &[char]) -> (Vec<J>, usize) {
     (fx.out, fx.unlocated)
 }
 
+/// Flavour "applied": the base type system of Gen_Sdl.tla (Base("none", <<>>)) written out against the dynamic API,
+/// with `Directive::new("meta")` + the case's arguments on the definition named by `loc`.  The case carries the
+/// type system as TLC printed it; a difference between the two shows up as a violation on the unchanged tree.
+mod applied {
+    use super::ts_build::value_of;
+    use async_graphql::dynamic::*;
+    use serde_json::Value as J;
+
+    pub fn directive(args: &J) -> Directive {
+        let mut d = Directive::new("meta");
+        for (i, a) in args.as_array().cloned().unwrap_or_default().iter().enumerate() {
+            d = d.argument(format!("a{}", i + 1), value_of(a).unwrap_or_else(|| vh::io::tool_error("applied: argument without a value")));
+        }
+        d
+    }
+    fn int() -> TypeRef { TypeRef::named(TypeRef::INT) }
+    fn list_int() -> TypeRef { TypeRef::List(Box::new(int())) }
+
+    pub fn schema(loc: &str, args: &J) -> Result<Schema, SchemaError> {
+        const LOCS: [&str; 12] = ["object", "field", "arg", "interface", "ifaceField", "ifaceArg", "enum", "enumValue", "inputObject",
+                                  "inputField", "union", "scalar"];
+        if !LOCS.contains(&loc) { vh::io::tool_error(&format!("applied: unknown location {loc}")); }
+        let null = async_graphql::Value::Null;
+        // E
+        let mut v1 = EnumItem::new("V1");
+        if loc == "enumValue" { v1 = v1.directive(directive(args)); }
+        let mut e = Enum::new("E").item(v1).item(EnumItem::new("V2").deprecation(None));
+        if loc == "enum" { e = e.directive(directive(args)); }
+        // I
+        let mut ic = InputValue::new("c", list_int()).default_value(null.clone());
+        if loc == "ifaceArg" { ic = ic.directive(directive(args)); }
+        let mut ifld = InterfaceField::new("f", int())
+            .argument(InputValue::new("a", TypeRef::named(TypeRef::STRING)))
+            .argument(InputValue::new("b", int()))
+            .argument(ic);
+        if loc == "ifaceField" { ifld = ifld.directive(directive(args)); }
+        let mut i = Interface::new("I").field(ifld);
+        if loc == "interface" { i = i.directive(directive(args)); }
+        // O
+        let mut oa = InputValue::new("a", TypeRef::named(TypeRef::STRING)).default_value(async_graphql::Value::from("b c"));
+        if loc == "arg" { oa = oa.directive(directive(args)); }
+        let mut of = Field::new("f", int(), |_| FieldFuture::Value(None))
+            .argument(oa)
+            .argument(InputValue::new("b", int()).default_value(async_graphql::Value::from(7)))
+            .argument(InputValue::new("c", list_int()).default_value(null.clone()))
+            .argument(InputValue::new("d", TypeRef::named(TypeRef::BOOLEAN)).default_value(null.clone()));
+        if loc == "field" { of = of.directive(directive(args)); }
+        let mut o = Object::new("O").implement("I").field(of)
+            .field(Field::new("g", TypeRef::NonNull(Box::new(TypeRef::List(Box::new(TypeRef::named_nn("E"))))), |_| FieldFuture::Value(None)));
+        if loc == "object" { o = o.directive(directive(args)); }
+        // Query
+        let q = Object::new("Query")
+            .field(Field::new("q", TypeRef::named("I"), |_| FieldFuture::Value(None))
+                .argument(InputValue::new("x", TypeRef::named("X")))
+                .argument(InputValue::new("n", TypeRef::named("X")).default_value(null.clone())))
+            .field(Field::new("u", TypeRef::named("U"), |_| FieldFuture::Value(None)))
+            .field(Field::new("s", TypeRef::named("S"), |_| FieldFuture::Value(None)));
+        // S, U, X
+        let mut s = Scalar::new("S").specified_by_url("http://x");
+        if loc == "scalar" { s = s.directive(directive(args)); }
+        let mut u = Union::new("U").possible_type("O");
+        if loc == "union" { u = u.directive(directive(args)); }
+        let mut xx = InputValue::new("x", TypeRef::named(TypeRef::STRING));
+        if loc == "inputField" { xx = xx.directive(directive(args)); }
+        let mut x = InputObject::new("X").field(xx)
+            .field(InputValue::new("y", TypeRef::named_nn(TypeRef::INT)).default_value(async_graphql::Value::from(1)))
+            .field(InputValue::new("z", int()).default_value(null.clone()))
+            .field(InputValue::new("w", TypeRef::List(Box::new(TypeRef::named_nn("E")))).default_value(null));
+        if loc == "inputObject" { x = x.directive(directive(args)); }
+        Schema::build("Query", None, None).register(e).register(i).register(o).register(q).register(s).register(u).register(x).finish()
+    }
+}
+
 fn guarded<T>(f: impl FnOnce() -> T) -> Result<T, String> {
     catch_unwind(AssertUnwindSafe(f)).map_err(|_| LAST_PANIC.with(|p| p.borrow().clone()))
 }
@@ -243,6 +316,9 @@ fn main() {
         let sdl: Result<Option<String>, String> = if let Some(name) = flavour.strip_prefix("static:") {
             ts = c17_static::mirror(name);
             guarded(|| Some(c17_static::sdl(name, opts)))
+        } else if flavour == "applied" {
+            let (loc, args) = (case["applied"]["loc"].as_str().unwrap_or("").to_string(), case["applied"]["args"].clone());
+            guarded(|| Some(applied::schema(&loc, &args).unwrap_or_else(|e| tool_error(&format!("applied schema does not build: {e}"))).sdl_with_options(opts)))
         } else {
             guarded(|| ts_build::builder_of(&ts).finish().ok().map(|s| s.sdl_with_options(opts)))
         };
